@@ -242,6 +242,7 @@ func TestC11SeqECC(t *testing.T) {
 		t.Run(m.name, func(t *testing.T) {
 			vlib.Check(t, vlib.N(160, 1200)/mm.div, func(t *rapid.T) { m.run(t, snaps) })
 			m.decodeSweep(t)
+			m.pairSweep(t)
 		})
 	}
 }
